@@ -986,7 +986,15 @@ func wrAbsify(baseKind string, file bool, m string, a []string) []string {
 		// tree: only the failing rename of a missing source is exercised over OrefaFS
 		fix(1)
 		a[0] = wrS("/tmp/zz")
-	case "Link", "Symlink", "Rel", "SameFile":
+	case "Link":
+		// OrefaFS.Link of a directory never returns (it locks itself) in the pinned tree: only
+		// names that are regular files (or missing) are linked over OrefaFS
+		fix(0)
+		fix(1)
+		if b := path.Base(wrStr(a[0])); b != "f1" && b != "f2" && b != "b" && b != "nope" {
+			a[0] = wrS("/tmp/f1")
+		}
+	case "Symlink", "Rel", "SameFile":
 		fix(0)
 		fix(1)
 	default:
@@ -1207,16 +1215,60 @@ func wrRunHistory(kind, baseKind string, treeSeed uint64, plan string, ops []wrO
 	select {
 	case <-done:
 	case <-time.After(20 * time.Second):
+		// which call? and does the base hang on it when driven directly (then it is the base's defect)?
+		ops2 := append([]wrOp(nil), performed...)
 		head := fmt.Sprintf("%s %s %d %s", kind, baseKind, treeSeed, plan)
-		res = wrRun{caseLine: head, obsLine: "HANG (a call through the wrapper did not return within 20 s)", counts: map[string]int{}}
+		cs := []string{head}
+		for _, op := range ops2 {
+			cs = append(cs, op.String())
+		}
+		obs := "HANG (a call through the wrapper did not return within 20 s)"
+		if wrBaseHangs(baseKind, treeSeed, ops2) {
+			obs = "BASE-HANG"
+		}
+		res = wrRun{caseLine: strings.Join(cs, " | "), obsLine: obs, counts: map[string]int{}}
 	}
 	return res, performed
+}
+
+// wrBaseHangs replays the history on a bare base (no wrapper, no proxy): true when that hangs too.
+func wrBaseHangs(baseKind string, treeSeed uint64, ops []wrOp) bool {
+	done := make(chan struct{})
+	go func() {
+		defer close(done)
+		b := wrNewBase(baseKind)
+		wrPopulate(b, treeSeed, baseKind)
+		env := &wrEnv{raw: b, idms: []avfs.IdentityMgr{memidm.New()}}
+		objs := map[int]any{0: b}
+		for _, op := range ops {
+			o := objs[op.obj]
+			if o == nil {
+				continue
+			}
+			if _, obj, ok := wrExec(env, o, op.file, op.m, op.args); ok && obj != nil {
+				objs[op.bind] = obj
+			}
+		}
+	}()
+	select {
+	case <-done:
+		return false
+	case <-time.After(5 * time.Second):
+		return true
+	}
 }
 
 func runWrap(cfg config, kind string) {
 	o := newOut(cfg.dir, cfg.name)
 	cover := map[string]int{}
+	var basehangs []string
 	emit := func(r wrRun) {
+		if r.obsLine == "BASE-HANG" {
+			// the bare base hangs on this history (a defect of the base, another property's business)
+			o.count("skipped:base-hangs-when-driven-directly")
+			basehangs = append(basehangs, r.caseLine)
+			return
+		}
 		key := ""
 		if !strings.Contains(r.obsLine, "HANG") {
 			s := md5.Sum([]byte(r.obsLine))
@@ -1280,9 +1332,9 @@ func runWrap(cfg config, kind string) {
 		o.close(cfg.name)
 		return
 	}
-	nhist, hlen := 400, 30
+	nhist, hlen := 1500, 30
 	if cfg.tier == "thorough" {
-		nhist, hlen = 4000, 45
+		nhist, hlen = 12000, 45
 	}
 	if kind == "failfs" {
 		nhist = nhist / 20 // every history is re-run under each of its single-fault plans
@@ -1345,6 +1397,10 @@ func runWrap(cfg config, kind string) {
 	}
 	o.extra["calls"] = ncalls
 	o.extra["methods_exercised"] = len(cover)
+	if len(basehangs) > 3 {
+		basehangs = basehangs[:3]
+	}
+	o.extra["base_hangs_skipped"] = basehangs
 	o.extra["fault_plans"] = plans
 	o.rule = "one line = one history of calls through " + kind + " over a MemFS/OrefaFS base with a seeded random tree (first two per base: a sweep of every VFS and File method incl. handed-out files and sub file systems, and OpenFile with all 2^7 flag combinations); " +
 		"observed per call: answer, consulted FnVFS ids, calls that reached the base (recording proxy), full base snapshot before/after; distinct = distinct observed lines" +
